@@ -244,7 +244,8 @@ private theorem executing_good {d : DBState} {me sender now n} (h : d.executing 
   exc at h
   obtain ⟨-, h⟩ := h
   split at h
-  · exact left_good h
+  · exc at h
+    exact left_good h.2
   · exc at h
     obtain ⟨h1, -, -, rfl⟩ := h
     exact good_of_valid h1 rfl rfl (by decide)
